@@ -106,6 +106,12 @@ func gen(r *sim.Rng, tier string) *sim.Case {
 			p["again"] = 1
 		}
 		p["vt"] = r.N(5) // vertex type: int, string, struct, labels with spaces, struct with a non-unique String()
+		if p["vt"] != 3 {
+			if r.Pct(12) && nv <= 9 {
+				p["blocks"] = (32+nv-1)/nv + r.N(2) // dozens of vertices: disjoint copies of the small graph
+			}
+			p["reuse"] = r.Pick(12, 2, 1, 2) // the Graph value had an earlier life / was queried before it grew
+		}
 		kind := r.Pick(4, 2, 1, 1)
 		p["gkind"] = kind
 		dens := r.Range(5, 95)
@@ -633,20 +639,61 @@ func cliquesT[T comparable](c *sim.Case, out *sim.WorkerOut, dg *engc.Digest, mk
 	if nv > 13 {
 		nv = 13
 	}
+	// blocks > 1: the graph is the disjoint union of that many copies of the small graph (vertex
+	// b*nv+i is vertex i of copy b): dozens of vertices, and the maximal cliques are still known
+	// exactly - those of the small graph, once per copy
+	blocks := c.P("blocks")
+	if blocks < 1 {
+		blocks = 1
+	}
+	if blocks > 8 {
+		blocks = 8
+	}
 	var g algz.Graph[T]
+	switch c.P("reuse") {
+	case 1:
+		// the instance had an earlier life: as many vertices, other edges (a ring), queried,
+		// then initialised again
+		for v := 0; v < nv*blocks; v++ {
+			g.AddNode(mk(1000 + v))
+			if nv*blocks > 1 { // (no self-loop: simple graphs only)
+				g.AddUndirectedEdge(mk(1000+v), mk(1000+(v+1)%(nv*blocks)))
+			}
+		}
+		_ = g.GetMaximalCliques()
+		g.Init(0)
+		out.Probes["graph_instance_reused_after_Init"]++
+	case 2:
+		// ... or its node map is simply replaced
+		for v := 0; v < nv*blocks; v++ {
+			g.AddNode(mk(1000 + v))
+		}
+		_ = g.GetMaximalCliques()
+		g.Nodes = map[T]map[T]struct{}{}
+		out.Probes["graph_instance_reused_after_Init"]++
+	}
 	adj := make([][]bool, nv)
 	for i := range adj {
 		adj[i] = make([]bool, nv)
 	}
-	for v := 0; v < nv; v++ {
+	for v := 0; v < nv*blocks; v++ {
 		g.AddNode(mk(v)) // isolated vertices included
+	}
+	if c.P("reuse") == 3 {
+		_ = g.GetMaximalCliques() // queried before the edges arrive (grow-only use)
+		out.Probes["graph_queried_then_grown"]++
 	}
 	for _, op := range c.Ops {
 		if op.Op != "Edge" || op.K == op.V || op.K < 0 || op.V < 0 || op.K >= nv || op.V >= nv {
 			continue
 		}
-		g.AddUndirectedEdge(mk(op.K), mk(op.V))
+		for b := 0; b < blocks; b++ {
+			g.AddUndirectedEdge(mk(b*nv+op.K), mk(b*nv+op.V))
+		}
 		adj[op.K][op.V], adj[op.V][op.K] = true, true
+	}
+	if nv*blocks >= 32 {
+		out.Probes["graph_with_32+_vertices"]++
 	}
 	got := g.GetMaximalCliques()
 	secondCall(c, out, nil, 4)
@@ -679,30 +726,36 @@ func cliquesT[T comparable](c *sim.Case, out *sim.WorkerOut, dg *engc.Digest, mk
 			want[m] = true
 		}
 	}
-	seen := map[int]bool{}
+	seen := map[[2]int]bool{}
 	for _, cl := range got {
-		m := 0
+		m, blk := 0, -1
 		for _, xt := range cl {
 			x := unmk(xt)
-			if x < 0 || x >= nv {
+			if x < 0 || x >= nv*blocks {
 				return viol("vertex_invented", "(*Graph).GetMaximalCliques", "clique %v contains a vertex that is not in the graph", cl)
 			}
+			if blk >= 0 && x/nv != blk {
+				return viol("clique_wrong", "(*Graph).GetMaximalCliques", "%v is not a clique of the graph (its vertices lie in different components)", cl)
+			}
+			blk, x = x/nv, x%nv
 			if m&(1<<x) != 0 {
 				return viol("clique_wrong", "(*Graph).GetMaximalCliques", "clique %v lists a vertex twice", cl)
 			}
 			m |= 1 << x
 		}
-		if seen[m] {
+		if seen[[2]int{blk, m}] {
 			return viol("clique_duplicated", "(*Graph).GetMaximalCliques", "clique %v returned twice", cl)
 		}
-		seen[m] = true
+		seen[[2]int{blk, m}] = true
 		if !want[m] {
 			return viol("clique_wrong", "(*Graph).GetMaximalCliques", "%v is not a maximal clique of the graph", cl)
 		}
 	}
 	for m := range want {
-		if !seen[m] {
-			return viol("clique_missing", "(*Graph).GetMaximalCliques", "maximal clique with vertex mask %b was not returned (%d returned, %d exist)", m, len(got), len(want))
+		for b := 0; b < blocks; b++ {
+			if !seen[[2]int{b, m}] {
+				return viol("clique_missing", "(*Graph).GetMaximalCliques", "maximal clique with vertex mask %b (component %d of %d) was not returned (%d returned, %d exist)", m, b, blocks, len(got), len(want)*blocks)
+			}
 		}
 	}
 	dg.Add(len(got))
